@@ -172,6 +172,12 @@ pub fn main(tier: Tier, seed: u64) -> i32 {
                 || matches!(c.muts[0].node, Some(NodeMut::FlipBool) | Some(NodeMut::XorLow) | Some(NodeMut::SomeToNone) | Some(NodeMut::VecEmpty) | Some(NodeMut::NoneToSomeDefault) | Some(NodeMut::XorByte(0)))
         })
         .collect();
+    // pairs of lies inside one message (two deviations that could cancel in an accumulated check)
+    let mut cases = cases;
+    match crate::campaign::gen_pair_cases(&cfgs, &["dvalue", "faand", "wire shares", "output wire shares"], 6) {
+        Ok(p) => cases.extend(p),
+        Err(e) => rep.machinery(e),
+    }
     // scripted chains: an equivocating evaluator (n >= 3) announces a different masked input to one
     // garbler and fixes up the value it later reveals to that garbler
     let mut cases = cases;
